@@ -3,6 +3,7 @@ import Rooc.Oracle
 import Rooc.Syntax.Parse
 import Rooc.Syntax.Ref
 import Rooc.Syntax.Wire
+import Rooc.Syntax.GrammarPin
 namespace Rooc.Drv.C09
 open Rooc Sexp Rooc.Syntax
 
@@ -20,12 +21,19 @@ def hasOpaqueList : List PExp → Bool
   | e :: es => hasOpaque e || hasOpaqueList es
 end
 
+/-- the expression text stands in `min <text>␤s.t.…`: NEWLINEs at its end belong to the `nl+` behind the objective -/
+def dropTrailingNl (toks : List Tok) : List Tok := (toks.reverse.dropWhile (· == .nl)).reverse
+
 /-- answer of the parser model with the class of a rejection: `peg` (the grammar does not match) or the first
 error of the AST builder -/
 def encText (s : List Char) : Sexp :=
+  match grammarDrift with
+  | some rule => app "err" [.atom "grammar-rule-changed", .atom rule]
+  | none =>
   match lex s with
   | .unsupported => app "err" [.atom "unsupported"]
   | .ok toks =>
+    let toks := dropTrailingNl toks
     match parseToksRaw toks with
     | .error .reject => app "err" [.atom "reject", .atom "peg"]
     | .error .panic => app "err" [.atom "panic"]
@@ -207,11 +215,22 @@ def isNestedRangeDefect (toks : List Tok) (ie : Option Ref.E) : Bool :=
     Ref.canon (Ref.ofPExp r) != Ref.canon (Ref.ofPExp t) && Ref.canon (Ref.ofPExp r) == Ref.canon i
   | _, _ => false
 
+/-- KNOWN DEFECT classification: `iteration_declaration = { … ~ ^"in" ~ iterator }` matches the word `in` in any letter
+case and WITHOUT a word boundary, so `i inS`, `i in_x` are read as `i in S`, `i in _x` -/
+def gluedIn : List Tok → Bool
+  | a :: .word w :: rest =>
+    ((match a with | .word _ | .rpar => true | _ => false)
+      && (lowerWord w).startsWith "in" && (w.length > 2 || (match rest with | .us :: _ => true | _ => false)))
+      || gluedIn (.word w :: rest)
+  | _ :: rest => gluedIn rest
+  | [] => false
+
 def oracle : List Sexp → Sexp
   | .atom "check" :: .str s :: impl :: more =>
     match lex s.toList with
     | .unsupported => app "ok" [.atom "skipped-unsupported"]
     | .ok toks =>
+      let toks := dropTrailingNl toks
       match decodeImpl impl with
       | none => app "err" [.atom "decode"]
       | some ie =>
@@ -219,6 +238,8 @@ def oracle : List Sexp → Sexp
         let v := judge toks ie consts
         if v.isOk then report s v
         else if isNestedRangeDefect toks ie then app "violation" [.atom "range-bound-read-from-nested-range", .str s]
+        else if (match v with | .acceptsIllformed => true | _ => false) && gluedIn toks then
+          app "violation" [.atom "keyword-in-without-word-boundary", .str s]
         else
           match more.find? (fun | .list (.atom "twin" :: _) => true | _ => false) with
           | some (.list [.atom "twin", .str s2, impl2]) =>
